@@ -321,17 +321,17 @@ func (in *Interp) binary(x *ast.BinaryExpr) RV {
 			return rvBool(false)
 		}
 		r := in.Eval(x.Y)
-		if r.K == "bool" && !r.B && l.K != "panic" {
-			if l.K == "bool" {
-				return rvBool(false)
-			}
-			return rvUnknown // left unknown: it may have panicked/short-circuited; result false or unknown → unknown is safe
+		if r.K == "bool" && !r.B {
+			return rvBool(false) // whatever the (non-panicking) left operand is
 		}
 		if l.K == "bool" && r.K == "bool" {
 			return rvBool(l.B && r.B)
 		}
 		if l.K == "bool" && l.B {
 			return r
+		}
+		if r.K == "panic" {
+			return r // the left operand is not known to be false: the right one may be evaluated
 		}
 		return rvUnknown
 	case token.LOR:
@@ -343,11 +343,17 @@ func (in *Interp) binary(x *ast.BinaryExpr) RV {
 			return rvBool(true)
 		}
 		r := in.Eval(x.Y)
+		if r.K == "bool" && r.B {
+			return rvBool(true) // whatever the (non-panicking) left operand is
+		}
 		if l.K == "bool" && r.K == "bool" {
 			return rvBool(l.B || r.B)
 		}
 		if l.K == "bool" && !l.B {
 			return r
+		}
+		if r.K == "panic" {
+			return r // the left operand is not known to be true: the right one may be evaluated
 		}
 		return rvUnknown
 	}
@@ -451,6 +457,39 @@ func (in *Interp) call(c *ast.CallExpr) RV {
 						return rvPanic
 					}
 					return rvType(&MT{Kind: "Slice", Elem: a.T})
+				}
+			}
+		case "FuncOf":
+			if len(c.Args) == 3 {
+				mk := func(e ast.Expr) ([]*MT, string) {
+					cl, ok := Unparen(e).(*ast.CompositeLit)
+					if !ok {
+						return nil, "unknown"
+					}
+					var out []*MT
+					for _, el := range cl.Elts {
+						v := in.Eval(el)
+						if v.K == "panic" {
+							return nil, "panic"
+						}
+						if v.K != "type" {
+							return nil, "unknown"
+						}
+						if v.T == nil {
+							return nil, "panic" // reflect.FuncOf panics on a nil element
+						}
+						out = append(out, v.T)
+					}
+					return out, ""
+				}
+				ins, e1 := mk(c.Args[0])
+				outs, e2 := mk(c.Args[1])
+				if e1 == "panic" || e2 == "panic" {
+					return rvPanic
+				}
+				if e1 == "" && e2 == "" {
+					v := in.Eval(c.Args[2])
+					return rvType(&MT{Kind: "Func", In: ins, Out: outs, Variadic: v.K == "bool" && v.B})
 				}
 			}
 		case "PtrTo", "PointerTo":
@@ -677,6 +716,43 @@ func (in *Interp) exec(s ast.Stmt) (execStatus, RV) {
 		case c.K == "panic":
 			return stReturn, c
 		case c.K != "bool":
+			// unknown condition: both branches may run; a panic in either is a possible panic,
+			// variables the branches leave different become unknown
+			base := in.Env
+			run := func(body func() (execStatus, RV)) (execStatus, RV, map[types.Object]RV) {
+				in.Env = map[types.Object]RV{}
+				for k, v := range base {
+					in.Env[k] = v
+				}
+				st, v := body()
+				return st, v, in.Env
+			}
+			st1, v1, e1 := run(func() (execStatus, RV) { return in.execList(x.Body.List) })
+			st2, v2, e2 := run(func() (execStatus, RV) {
+				if x.Else != nil {
+					return in.exec(x.Else)
+				}
+				return stNormal, RV{}
+			})
+			in.Env = base
+			if st1 == stReturn && v1.K == "panic" {
+				return st1, v1
+			}
+			if st2 == stReturn && v2.K == "panic" {
+				return st2, v2
+			}
+			if st1 == stNormal && st2 == stNormal {
+				merged := map[types.Object]RV{}
+				for k, a := range e1 {
+					if b, ok := e2[k]; ok && a.K == b.K && a.B == b.B && a.I == b.I && a.S == b.S && a.T.Same(b.T) && a.K != "tuple" {
+						merged[k] = a
+					} else {
+						merged[k] = rvUnknown
+					}
+				}
+				in.Env = merged
+				return stNormal, RV{}
+			}
 			return stAbort, rvUnknown
 		case c.B:
 			return in.execList(x.Body.List)
@@ -762,3 +838,8 @@ func (in *Interp) exec(s ast.Stmt) (execStatus, RV) {
 	}
 	return stAbort, rvUnknown
 }
+
+// IsPanic reports whether the value is the result of an operation that panics on the model
+// (a method call on the nil type, an index out of the parameter / result range, Elem / Key /
+// NumIn … on a kind that does not have them).
+func (v RV) IsPanic() bool { return v.K == "panic" }
